@@ -909,10 +909,109 @@ def gen_c19(read, num):
     return lines, broken
 
 
+STATE_STRUCTS = [
+    ("crates/edp_client/src/connection.rs", "Connection"),
+    ("crates/edp_client/src/transport.rs", "FramedTransport"),
+    ("crates/edp_client/src/framing.rs", "MessageFramer"),
+    ("crates/edp_client/src/framing.rs", "MessageDeframer"),
+    ("crates/edp_client/src/state_machine.rs", "HandshakeStateMachine"),
+    ("crates/edp_client/src/fragmentation.rs", "FragmentedMessage"),
+    ("crates/edp_client/src/fragmentation.rs", "FragmentAssembler"),
+    ("crates/edp_client/src/pid_allocator.rs", "PidAllocator"),
+    ("crates/erltf/src/decoder.rs", "AtomCache"),
+    ("crates/edp_node/src/node.rs", "Node"),
+    ("crates/edp_node/src/process.rs", "ProcessHandle"),
+    ("crates/edp_node/src/process.rs", "ExitSet"),
+    ("crates/edp_node/src/registry.rs", "ProcessRegistry"),
+    ("crates/edp_node/src/mailbox.rs", "Mailbox"),
+    ("crates/edp_node/src/gen_server.rs", "GenServerProcess"),
+    ("crates/edp_node/src/gen_event.rs", "GenEventManager"),
+]
+
+STATIC_FILES = [
+    "crates/erltf/src/encoder.rs", "crates/erltf/src/decoder.rs", "crates/erltf/src/borrowed.rs",
+    "crates/edp_client/src/connection.rs", "crates/edp_client/src/framing.rs", "crates/edp_client/src/transport.rs",
+    "crates/edp_client/src/fragmentation.rs", "crates/edp_client/src/control.rs", "crates/edp_client/src/handshake.rs",
+    "crates/edp_client/src/state_machine.rs", "crates/edp_client/src/digest.rs", "crates/edp_client/src/pid_allocator.rs",
+    "crates/edp_node/src/node.rs", "crates/edp_node/src/process.rs", "crates/edp_node/src/registry.rs",
+    "crates/edp_node/src/mailbox.rs", "crates/edp_node/src/gen_server.rs", "crates/edp_node/src/gen_event.rs",
+    "crates/erltf_serde/src/ser.rs",
+]
+
+
+def gen_state(read, num):
+    """The state the code keeps: the fields (name: type) of every struct that a model carries as state, and every
+    `static` / `thread_local!` / `OnceLock` / `LazyLock` / `lazy_static!` item in the modelled source files.  The models'
+    state components are compared with these lists by `decide` theorems (Props/C04, C06, C09, C16, C18, C19, ...): a new
+    field, a changed type or a new piece of process-wide state is state the model does not know about."""
+    broken, lines = [], []
+
+    def strs(xs):
+        return "[" + ", ".join('"' + x.replace("\\", "\\\\").replace('"', '\\"') + '"' for x in xs) + "]"
+
+    def strip(text):
+        text = re.sub(r"//[^\n]*", "", text)
+        return re.sub(r"/\*.*?\*/", "", text, flags=re.S)
+
+    for path, name in STATE_STRUCTS:
+        src = read(path)
+        fields = []
+        if src is None:
+            broken.append(f"{path} missing")
+        else:
+            m = re.search(r"\bstruct\s+" + name + r"\b[^{;]*\{", strip(src))
+            if not m:
+                broken.append(f"struct {name} not found in {path}")
+            else:
+                text = strip(src)
+                i, depth, j = m.end(), 1, m.end()
+                while j < len(text) and depth:
+                    depth += {"{": 1, "}": -1}.get(text[j], 0)
+                    j += 1
+                body = re.sub(r"#\[[^\]]*\]", "", text[i:j - 1])
+                # split on top-level commas
+                parts, cur, d = [], "", 0
+                for ch in body:
+                    if ch in "<([{":
+                        d += 1
+                    elif ch in ">)]}":
+                        d -= 1
+                    if ch == "," and d == 0:
+                        parts.append(cur)
+                        cur = ""
+                    else:
+                        cur += ch
+                parts.append(cur)
+                for part in parts:
+                    part = re.sub(r"\s+", "", re.sub(r"\bpub(\([a-z]+\))?\s+", "", part.strip()))
+                    if part:
+                        fields.append(part)
+        lines.append(f"/-- fields of `struct {name}` ({path}) as `name:type` -/")
+        lines.append(f"def STRUCT_{name} : List String := {strs(fields)}")
+        lines.append("")
+    statics = []
+    for path in STATIC_FILES:
+        src = read(path)
+        if src is None:
+            broken.append(f"{path} missing")
+            continue
+        text = strip(src)
+        short = path.split("/src/")[0].split("/")[-1] + "/" + path.split("/")[-1]
+        for m in re.finditer(r"\b(thread_local!|lazy_static!|static\s+(?:mut\s+)?[A-Z_0-9]+|OnceLock|OnceCell|LazyLock|LazyCell)\b", text):
+            w = re.sub(r"\s+", " ", m.group(1))
+            if text[max(0, m.start() - 4):m.start()] == "use " or re.search(r"use [^;]*$", text[max(0, m.start() - 120):m.start()]):
+                continue
+            statics.append(short + ":" + w)
+    lines.append("/-- every process-wide item (`static`, `thread_local!`, once-cells) in the modelled source files, as `crate/file:item` -/")
+    lines.append(f"def PROCESS_WIDE_STATE : List String := {strs(statics)}")
+    lines.append("")
+    return lines, broken
+
+
 def run(read, emit, num):
     body = "namespace Edp.Gen\n\n"
     broken = []
-    for part in (gen_c16, gen_c09, gen_c04, gen_c15, gen_c13, gen_c18, gen_c19):
+    for part in (gen_c16, gen_c09, gen_c04, gen_c15, gen_c13, gen_c18, gen_c19, gen_state):
         ls, br = part(read, num)
         body += "\n".join(ls) + "\n"
         broken += br
